@@ -30,7 +30,7 @@ ParseKinds == {"badobj", "badtag", "unknowntag", "strayend", "strayclause", "bad
 \* (subfail: a tag registered by the embedding program whose work fails in ANOTHER template - it hands back that render's
 \* located error, wrapped; extfail: one that reports through Context.Errorf)
 RenderKinds == {"filtererr", "converr", "dateerr", "argerr", "nofilter", "strict", "nofile", "incarg", "ifcond", "forcoll", "casesubj", "assignerr", "whenerr", "captureinner",
-                "subfail", "extfail"}
+                "subfail", "extfail", "typedarg"}
 DivZero == [t |-> "filter", e |-> Lit(IntV(1)), name |-> "divided_by", args |-> <<Lit(IntV(0))>>]
 Bad(k) ==
   CASE k \in ParseKinds -> [t |-> k]
@@ -41,6 +41,8 @@ Bad(k) ==
     [] k = "argerr" -> Ob([t |-> "filter", e |-> Lit(IntV(1)), name |-> "plus", args |-> <<Lit(Str(<<113>>))>>])
     [] k = "nofilter" -> Ob([t |-> "filter", e |-> Lit(IntV(1)), name |-> "nosuchfilter", args |-> <<>>])
     [] k = "strict" -> Ob(Var(<<117, 110, 100, 101, 102>>))
+    \* (a filter of the embedding program declared with a typed slice parameter, given an element that does not convert)
+    [] k = "typedarg" -> Ob([t |-> "filter", e |-> [t |-> "filter", e |-> Lit(Str(<<97, 44, 98>>)), name |-> "split", args |-> <<Lit(Str(<<44>>))>>], name |-> "lqx_sum", args |-> <<>>])
     [] k = "subfail" -> [t |-> "xsub"]
     [] k = "extfail" -> [t |-> "xfail"]
     [] k = "nofile" -> [t |-> "include", e |-> Lit(Str(<<110, 111, 102, 105, 108, 101>>))]
@@ -53,7 +55,7 @@ Bad(k) ==
     [] k = "whenerr" -> [t |-> "case", e |-> Lit(IntV(1)), pre |-> <<>>, whens |-> <<[vals |-> <<[t |-> "filter", e |-> Lit(IntV(1)), name |-> "nosuchfilter", args |-> <<>>]>>, body |-> <<T(<<113>>)>>]>>]
     [] k = "captureinner" -> [t |-> "capture", name |-> <<113>>, body |-> <<T(<<10>>), Ob(DivZero)>>]
 Mention(k) == CASE k = "filtererr" -> "divided_by" [] k = "nofilter" -> "nosuchfilter" [] k = "unknowntag" -> "nosuchtag" [] OTHER -> ""
-HasCause(k) == k \in {"filtererr", "converr", "dateerr", "argerr", "ifcond", "forcoll", "casesubj", "assignerr", "captureinner", "subfail"}
+HasCause(k) == k \in {"filtererr", "converr", "dateerr", "argerr", "ifcond", "forcoll", "casesubj", "assignerr", "captureinner", "subfail", "typedarg"}
 
 Wrappers == {"if", "for", "case", "capture", "unless"}
 RECURSIVE Shapes(_)
